@@ -365,6 +365,8 @@ package bgp
 //@   requires n != nil
 //@   claims at-call
 //@   at-call append(b, buf...) requires int(b[0]) == 0xf0 + length/256 && int(b[1]) == length%256
+// ... and that form is used for bodies of 240 octets or more only (length is the body length there)
+//@   at-call append(b, buf...) requires length >= 0xf0
 //@ func (*LsTLVAdjacencySID).DecodeFromBytes
 //@   claims post
 //@   ensures result != nil ==> isMsgErr(result)
